@@ -8,7 +8,7 @@ from ..terms import A, C, F, V, L, NIL, call, conj, TRUE, CUT, show_program, sho
 
 ID = 'C04'
 LEVEL = 'model_checking'
-RULE = ('(f) engines that come and go: 30 rounds of an engine with a Python predicate, a script and facts that is used, dropped and collected, followed by 40 new engines that must each be pristine; (e) what a process does first: every sequence of <= 4 events over {A loads, A queries, A clears, B loads, B queries}, each in a process of its own forked from a zygote that never resolved a call, where B\'s predicates are named like A\'s registrations are filed (step_1, pair_2, ext_n, once_1): afterwards both engines give exactly their own answers; (a) two engines, generator level: every ordered pair of actor scripts from a menu of 21 incl. one that asserts with ONE Atom object (made by whichever of the two engines needs it first) as predicate name on both engines and two with fact tables of 40 and 300 facts looked up by key (+3 scripts that register ONE shared function object - inferred, with an explicit arity, as unbound and as bound method - paired with each other and with the registering scripts) (create engine, retractall / retract of predicates the engine does not know yet, load '
+RULE = ('(g) deep suspended queries: len/2 on lists of dA x dB x dC elements (quick: 1 x 2 x 1 depths 100..350 calls, thorough: 4 x 4 x 3 depths 50..400) by three actors - two that stay suspended that deep after their first answer, one that runs to the end - in every merge order of their 5 steps, on three engines and on one: each actor gives the answers it gives alone (a suspended query occupies no stack and no budget of another); (f) engines that come and go: 30 rounds of an engine with a Python predicate, a script and facts that is used, dropped and collected, followed by 40 new engines that must each be pristine; (e) what a process does first: every sequence of <= 4 events over {A loads, A queries, A clears, B loads, B queries}, each in a process of its own forked from a zygote that never resolved a call, where B\'s predicates are named like A\'s registrations are filed (step_1, pair_2, ext_n, once_1): afterwards both engines give exactly their own answers; (a) two engines, generator level: every ordered pair of actor scripts from a menu of 21 incl. one that asserts with ONE Atom object (made by whichever of the two engines needs it first) as predicate name on both engines and two with fact tables of 40 and 300 facts looked up by key (+3 scripts that register ONE shared function object - inferred, with an explicit arity, as unbound and as bound method - paired with each other and with the registering scripts) (create engine, retractall / retract of predicates the engine does not know yet, load '
         'script with overwrite on/off, assert_fact, register_function, clear, atom, start/next/close of a query or a '
         'retract) x ALL merge orders of their steps (with disjoint vocabularies and, for scripts that clear or intern atoms, with the same atom names on both engines); (b) one engine: every pair (and every triple from a subset) of '
         'side-effect-free queries over disjoint variables (recursion, cut, if-then-else, negation, \\=, once, findall, '
@@ -594,6 +594,91 @@ def generations():
     return bad
 
 
+
+# ---------------------------------------------------------------- (g) deep suspended queries
+# A suspended query occupies no stack: however deep the suspended queries of other engines (or of the same
+# engine) are, a query gives the answers it gives alone.  Three actors - A and B: len/2 on a list of dA / dB
+# elements, first answer taken (suspended dA / dB calls deep), later exhausted; C: len/2 on dC elements run to
+# the end in one step - in EVERY merge order of their steps, for every triple of depths, on three engines and on one.
+DEEP_SRC = 'len([], z).\nlen([_|T], s(N)) :- len(T, N).\n'
+DEEP = {'quick': ([350], [100, 300], [100]), 'thorough': ([100, 200, 300, 400], [50, 150, 250, 350], [100, 300, 400])}
+
+
+def _deep_depth(t):
+    n = 0
+    while not isinstance(t, str):
+        n += 1
+        t = t[1][0]
+    return n
+
+
+class _DeepActor:
+    def __init__(self, yp, size, oneshot):
+        self.yp, self.size, self.oneshot, self.q, self.v = yp, size, oneshot, None, None
+
+    def step(self):
+        try:
+            if self.q is None:
+                self.v = self.yp.variable()
+                self.q = self.yp.query('len', [self.yp.makelist([self.yp.atom('a')] * self.size), self.v])
+                if self.oneshot:
+                    return [_deep_depth(self.v.to_python()) for _ in self.q]
+                next(self.q)
+                return ['first', _deep_depth(self.v.to_python())]
+            return ['rest'] + [_deep_depth(self.v.to_python()) for _ in self.q]
+        except BaseException as e:  # noqa: BLE001
+            return ['raised', type(e).__name__]
+
+
+def deep_run(pytext, sizes, order, one_engine):
+    yps = []
+    for i in range(3):
+        if one_engine and i:
+            yps.append(yps[0])
+            continue
+        yp = impl.YP()
+        yp.load_script_from_string(pytext, fn=impl.SCRIPT_FN)
+        yps.append(yp)
+    actors = [_DeepActor(yps[0], sizes[0], False), _DeepActor(yps[1], sizes[1], False), _DeepActor(yps[2], sizes[2], True)]
+    logs = [[], [], []]
+    for a in order:
+        logs[a].append(actors[a].step())
+    return logs
+
+
+def deep_orders():
+    return sorted(set(itertools.permutations([0, 0, 1, 1, 2])))
+
+
+def run_deep(spec, acc):
+    _, k, n, tier = spec
+    pytext = impl.compile_text(DEEP_SRC)
+    orders = deep_orders()
+    idx = 0
+    for da in DEEP[tier][0]:
+        for db in DEEP[tier][1]:
+            for dc in DEEP[tier][2]:
+                sizes = (da, db, dc)
+                want = None
+                for one in (False, True):
+                    for order in orders:
+                        idx += 1
+                        if idx % n != k:
+                            continue
+                        if want is None:
+                            want = [deep_run(pytext, sizes, [i] * c, False)[i] for i, c in ((0, 2), (1, 2), (2, 1))]
+                        acc.n['evaluations'] += 1
+                        acc.n['validated'] += 1
+                        acc.n['nontrivial'] += 1
+                        acc.n['transitions'] += 5
+                        got = deep_run(pytext, sizes, order, one)
+                        if got != want:
+                            acc.violation('deep-suspended-query-of-another-actor-changes-answers', (6, idx), {'kind': 'g', 'sizes': list(sizes), 'order': list(order), 'one_engine': one},
+                                          'len/2 on lists of %r elements (A, B: first answer, later the rest; C: all at once) on %s, steps in the order %r:\nobserved %r\neach alone %r'
+                                          % (sizes, 'ONE engine' if one else 'three engines', order, got, want), key='deep|%r|%r|%r' % (sizes, order, one))
+                        else:
+                            acc.outcome(('deep', repr(want)))
+
 # ---------------------------------------------------------------- plan / run
 def plan(tier):
     sh = [('a', k, 32) for k in range(32)] + [('b2', k, 32, 4 if tier == 'quick' else 5) for k in range(32)] + [('b3', k, 16, 2 if tier == 'quick' else 3) for k in range(16)]
@@ -607,6 +692,7 @@ def plan(tier):
     sh += [('d', k, 4) for k in range(4)]
     sh += [('e', k, 4) for k in range(4)]
     sh += [('f',)]
+    sh += [('g', k, 8, tier) for k in range(8)] if tier == 'quick' else [('g', k, 48, tier) for k in range(48)]
     # the conjunction and variable-fact bodies again in a process whose loggers are at DEBUG (records kept)
     for variant in (0, 3):
         sh += [('c', variant, 1, (start, k), 8, 'logged') for start in (0, 1) for k in range(8)]
@@ -629,6 +715,10 @@ def run_shard(spec):
     if spec[0] == 'e':
         acc = Acc()
         run_first(spec, acc)
+        return acc
+    if spec[0] == 'g':
+        acc = Acc()
+        run_deep(spec, acc)
         return acc
     if spec[0] == 'd':
         acc = Acc()
@@ -840,6 +930,12 @@ def expand(pairs, n=None):
 
 
 def replay(case):
+    if case['kind'] == 'g':
+        pytext = impl.compile_text(DEEP_SRC)
+        sizes = tuple(case['sizes'])
+        want = [deep_run(pytext, sizes, [i] * c, False)[i] for i, c in ((0, 2), (1, 2), (2, 1))]
+        got = deep_run(pytext, sizes, case['order'], case['one_engine'])
+        return [] if got == want else [('deep-suspended-query-of-another-actor-changes-answers', 'observed %r\neach alone %r' % (got, want))]
     if case['kind'] == 'f':
         return [('a-new-engine-inherits-from-a-dead-one', b) for b in in_child(generations, quiet=True)]
     if case['kind'] == 'e':
